@@ -9,13 +9,13 @@ from .common import SOCKET, SOCK_CLS, fn_of, queue_ref, sock_fn
 
 LEVEL = "other"
 EXPLANATION = (
-    "Static analysis (ast + CFG with exception edges + reaching definitions) of pyairtouch/comms/socket.py and both registries: R1 value "
-    "provenance of what is queued/written (reaching definitions, local expansion), R2 who-may-mutate the pending queue and at which end, R3 drain"
-    " triggers (post-dominance / who-may-call), R4 frame atomicity (no await between the writes, encode before first write, write order), R5 "
-    "every _MessageQueueEntry construction is a submission or a faithful re-queue (nothing raises after the append, so a rejected send is never "
-    "transmitted; R2 also: the queue is cleared only once the socket is no longer open), R6 packet counter stays inside its header slot (finite-"
-    "set abstract interpretation of _packet_id). These are necessary conditions of the history property; the interleaving/timing clauses are not "
-    "decided."
+    'Static analysis (ast + CFG with exception edges + reaching definitions) of pyairtouch/comms/socket.py and both registries: R1 value provenance of what '
+    'is queued/written (reaching definitions, local expansion), R2 who-may-mutate the pending queue and at which end, R3 drain triggers (post-dominance / '
+    'who-may-call), R4 frame atomicity (no await between the writes, encode before first write, write order), R5 every _MessageQueueEntry construction is a '
+    'submission or a faithful re-queue (nothing raises after the append, so a rejected send is never transmitted; R2 also: the queue is cleared only once '
+    'the socket is no longer open), R6 packet counter stays inside its header slot and runs 0..limit-1 round (bounded evaluation of __init__ + '
+    "create_from_message by the checker's own interpreter until the counter state repeats; the slot is read off the header bytes as the encoder builds "
+    'them). These are necessary conditions of the history property; the interleaving/timing clauses are not decided.'
 )
 ASSUMPTIONS = [
     "asyncio runs a task without interleaving between two awaits (cooperative scheduling)",
